@@ -154,6 +154,9 @@ def check(case, ctx):
         try:
             worst, delivered, pulled = run(case, n, ctx)
         except Exception as e:
+            why = gp.data_dependent_rejection(e)
+            if why:
+                return Info(rejected=True, classes=['rejected:' + why])
             raise unexpected(e, '/'.join(prog))
         if any(p != n for p in pulled):
             raise Violation('source-not-fully-consumed', {'pulled': pulled, 'n': n, 'program': prog})
